@@ -12,7 +12,7 @@ use serde_json::{json, Value};
 use std::io::Write;
 use std::path::{Path, PathBuf};
 
-pub const GEN_BASES: [u32; 4] = [0, 0x0640, 0xFFFA, 0x10FF00];
+pub const GEN_BASES: [u32; 5] = [0, 0x0640, 0xD7FD, 0xFFFA, 0x10FF00];
 
 fn render_line(cp: u32, kind: &str, v: u64, base: u32, model_cp: u32) -> String {
     let name = match kind {
